@@ -30,6 +30,8 @@ type polling struct {
 
 	req     atomic.Pointer[types.HttpContext]
 	dataCtx atomic.Pointer[types.HttpContext]
+	// detaches the "closed prematurely" watch of the ongoing data request
+	dataCleanup atomic.Pointer[types.Callable]
 
 	shouldClose atomic.Pointer[types.Callable]
 	mu          sync.Mutex
@@ -157,8 +159,10 @@ func (p *polling) onDataRequest(ctx *types.HttpContext) {
 
 	cleanup = func() {
 		ctx.RemoveListener("close", onClose)
+		p.dataCleanup.Store(nil)
 		p.dataCtx.Store(nil)
 	}
+	p.dataCleanup.Store(&cleanup)
 
 	ctx.Once("close", onClose)
 
@@ -411,6 +415,10 @@ func (p *polling) DoClose(fn types.Callable) {
 
 	if dataCtx := p.dataCtx.Load(); dataCtx != nil && !dataCtx.IsDone() {
 		polling_log.Debug("aborting ongoing data request")
+		// it is the server that ends this request: not "data request connection closed prematurely"
+		if cleanup := p.dataCleanup.Load(); cleanup != nil {
+			(*cleanup)()
+		}
 		dataCtx.ResponseHeaders.Set("Connection", "close")
 		dataCtx.SetStatusCode(http.StatusTooManyRequests)
 		dataCtx.Write(nil)
